@@ -763,7 +763,10 @@ def fixed_cases():
     out.append(mix_case(None, vb, [(1, ['X', 0, 'Y', -1, '0.5']), (2, ['Y', 0, 'Z', 0, '-1.0'])]))
     # rejected / degenerate scripts: no expectation, only the model ties speak (K_parse: same exception class as the model)
     out += [_raw(s) for s in ('2 = X', '{p} = X', 'Y = {0}', 'Y = }{', 'Y = {', 'Y = X[a]', 'Y = X[t]', 'if = 1', 'Y = X\nY = Z', 'Y = {X} + X', 'Y = X)',
-                              'Y[ 1 ] = X', ' Y = X', '`x = 1`', '```\nx = 1\n```\nY = X', 'Y = X\n\n', '', 'Y = 2e5 * X', 'Y = a < b > c', 'Y = X.T')]
+                              'Y[ 1 ] = X', ' Y = X', '`x = 1`', '```\nx = 1\n```\nY = X', 'Y = X\n\n', '', 'Y = 2e5 * X', 'Y = a < b > c', 'Y = X.T',
+                              # the tie between code text and statement (K_tie): spellings at the edge of CodeGen.tight
+                              'Y = 1 if A < X > 0 else 2', 'Y = X if.5 else 1', 'Y = 2X', 'Y = 2{p}', 'Y = X if 1<{p}else 2', 'Y = X[1]Z', 'Y = X if X>2and Z<1 else 4',
+                              'Y = max(X, 1)if X>0 else 3', 'Y = X[1_0] + X[-007]', 'Y = X if X<=1 or<e> < 2 else 3')]
     return out
 
 
